@@ -655,8 +655,12 @@ func digest(ai actInfo, ops map[string]int, methods map[string]*methodInfo) ([]s
 		case "AddStoreFunction":
 			emit("typePushFunction")
 			emit("typeStoreName")
-		case "PrepareCustomDice", "ConsumeCustomDice", "CommitCustomDice":
-			// only reached when a registered custom parser matched (C17's subject; none is registered in the model)
+		case "PrepareCustomDice":
+			// the predicate itself (Pred.customDice)
+		case "ConsumeCustomDice":
+			effs = append(effs, ".consumeCustom")
+		case "CommitCustomDice":
+			effs = append(effs, ".commitCustom")
 		default:
 			if l, ok := methodOps(methods, ops, m, 0); ok {
 				for _, k := range l {
@@ -870,6 +874,22 @@ func genFingerprints(pf *pkgFiles) (string, error) {
 		txt := strings.Join(strings.Fields(exprTextNode(pf, fd.Body)), " ")
 		rows = append(rows, fmt.Sprintf("(%s, %s)", leanStr(fd.Name.Name), leanStr(txt)))
 		delete(want, fd.Name.Name)
+	}
+	// the custom-dice trio lives on ParserCustomData
+	wantC := map[string]bool{"PrepareCustomDice": true, "ConsumeCustomDice": true, "CommitCustomDice": true, "ensurePendingCustomDice": true}
+	if fc := pf.files["custom_dice_parser.go"]; fc != nil {
+		for _, d := range fc.Decls {
+			fd, ok := d.(*ast.FuncDecl)
+			if !ok || fd.Recv == nil || fd.Body == nil || !wantC[fd.Name.Name] {
+				continue
+			}
+			txt := strings.Join(strings.Fields(exprTextNode(pf, fd.Body)), " ")
+			rows = append(rows, fmt.Sprintf("(%s, %s)", leanStr(fd.Name.Name), leanStr(txt)))
+			delete(wantC, fd.Name.Name)
+		}
+	}
+	for n := range wantC {
+		return "", fmt.Errorf("ParserCustomData method %s not found", n)
 	}
 	for n := range want {
 		return "", fmt.Errorf("ParserData method %s not found", n)
